@@ -33,3 +33,23 @@ Definition c12_tokens_model (c : string * list string) : bool :=
   end && (String.eqb p "$" ||
           (forallb (fun x => x) (map (fun ab => String.eqb (fst ab) (snd ab)) (combine (ref_tokens p) toks))
            && Nat.eqb (length (ref_tokens p)) (length toks))).
+
+(* merge_result: the state's ResultPath (absent = "$", null = discard the result) then its OutputPath
+   (absent = "$", null = {}) *)
+Definition state_path (kv : list (string * json)) (f : string) : option string :=
+  match obj_get kv f with
+  | None => Some "$"
+  | Some (JStr p) => Some p
+  | Some _ => None
+  end.
+
+Definition c12_merge_model (c : json * json * json * json * result json) : bool :=
+  let '(st, input, ctx, res, obs) := c in
+  match st with
+  | JObj kv =>
+      match apply_resultpath_m input res (state_path kv "ResultPath") with
+      | Err e => result_eqb (Err e) obs
+      | Ok out => match apply_path_m out ctx (state_path kv "OutputPath") with Some r => result_eqb r obs | None => true end
+      end
+  | _ => true
+  end.
